@@ -163,6 +163,11 @@ def solve_with_interval(goal, cond):
     var = convert(cond.arg1)
     interval = convert(cond.arg)
 
+    # solveset treats other variables as generic parameters and ignores
+    # special values, so the goal may only mention the variable of the condition.
+    if any(v != cond.arg1 for v in goal.get_vars()):
+        return False
+
     # x / 0 = 0 in HOL: divisors must be nonzero on the interval.
     try:
         for d in get_divisors(goal):
